@@ -1,6 +1,7 @@
 package doublylinkedlist
 
 import (
+	"github.com/emirpasic/gods/v2/containers"
 	"github.com/emirpasic/gods/v2/lists"
 	v "github.com/emirpasic/gods/v2/zzvsup"
 )
@@ -76,4 +77,9 @@ func VHListStep() {
 		IndexOf: l.IndexOf,
 		Inv:     func() { VInv(l) },
 	})
+}
+
+func VHIter() {
+	l, pre := VGList()
+	containers.VIterStep(func() containers.IteratorWithIndex[int] { it := l.Iterator(); return &it }, pre, l)
 }
